@@ -337,7 +337,8 @@ pub const RULE_GRAPH: &str = "case = seeded hostile read set (1-8 reads from: ra
 /// overlapping reads on both strands, K = 20..32
 pub fn gen_large_gcase(c: &mut Case) -> GCase {
     let kidx = *c.rng.pick(&[9usize, 10, 12, 13]);
-    let glen = 20_000 + c.rng.below(60_000);
+    // half of the cases exceed 65 536 distinct k-mers / nodes-before-compression (16-bit thresholds)
+    let glen = if c.rng.chance(1, 2) { 20_000 + c.rng.below(40_000) } else { 70_000 + c.rng.below(90_000) };
     let genome = crate::gen::gen_genome(&c.rng, glen, 30, 50);
     let mut reads = Vec::new();
     let mut pos = 0;
@@ -365,7 +366,7 @@ pub fn run_c01(ctx: &Ctx) {
         let gc = gen_gcase(c);
         with_graph_k!(gc.kidx, K => compress_case::<K>(c, &gc, Which::Lossless))
     });
-    if ctx.tier == crate::runner::Tier::Thorough && !ctx.is_miri() {
+    if !ctx.is_miri() && ctx.lane != "asan" {
         ctx.set_case_timeout(600);
         ctx.run_group("compress_large", ctx.n(4, 200), false, |c| {
             let gc = gen_large_gcase(c);
@@ -387,7 +388,7 @@ pub fn run_c02(ctx: &Ctx) {
         let gc = gen_gcase(c);
         with_graph_k!(gc.kidx, K => compress_case::<K>(c, &gc, Which::Maximal))
     });
-    if ctx.tier == crate::runner::Tier::Thorough && !ctx.is_miri() {
+    if !ctx.is_miri() && ctx.lane != "asan" {
         ctx.set_case_timeout(600);
         ctx.run_group("maximal_large", ctx.n(4, 200), false, |c| {
             let gc = gen_large_gcase(c);
@@ -791,7 +792,7 @@ pub fn run_c03(ctx: &Ctx) {
         let gc = gen_gcase(c);
         with_graph_k!(gc.kidx, K => c03_case::<K>(c, &gc))
     });
-    if ctx.tier == crate::runner::Tier::Thorough && !ctx.is_miri() {
+    if !ctx.is_miri() && ctx.lane != "asan" {
         ctx.set_case_timeout(900);
         ctx.run_group("edges_large", ctx.n(2, 50), false, |c| {
             let gc = gen_large_gcase(c);
@@ -1033,7 +1034,7 @@ pub fn run_c04(ctx: &Ctx) {
             )
         })
     });
-    if ctx.tier == crate::runner::Tier::Thorough && !ctx.is_miri() {
+    if !ctx.is_miri() && ctx.lane != "asan" {
         ctx.set_case_timeout(900);
         let nl = ctx.n(2, 12);
         ctx.run_group("sharded_vs_direct_large", nl, false, |c| c04_large(c));
@@ -1047,7 +1048,7 @@ pub fn run_c04(ctx: &Ctx) {
 
 fn c04_large(c: &mut Case) -> Result<(), String> {
     // a genome with planted repeats, reads tiled over it on both strands, K=24, P=6
-    let glen = 20_000 + c.rng.below(20_000);
+    let glen = if c.rng.chance(1, 2) { 20_000 + c.rng.below(20_000) } else { 70_000 + c.rng.below(50_000) };
     let genome = crate::gen::gen_genome(&c.rng, glen, 20, 60);
     let mut reads = Vec::new();
     let mut pos = 0;
@@ -1592,6 +1593,14 @@ pub fn run_c09(ctx: &Ctx) {
         let gc = gen_gcase(c);
         with_graph_k!(gc.kidx, K => c09_case::<K>(c, &gc))
     });
+    if !ctx.is_miri() && ctx.lane != "asan" {
+        ctx.set_case_timeout(900);
+        ctx.run_group("recompress_large", ctx.n(3, 60), false, |c| {
+            let gc = gen_large_gcase(c);
+            c.count("large_cases", 1);
+            with_graph_k!(gc.kidx, K => c09_case::<K>(c, &gc))
+        });
+    }
     if !ctx.is_miri() {
         ctx.require("cases_with_censoring", 200);
         ctx.require("cases_merging_nodes", 200);
